@@ -61,3 +61,5 @@ theorem queued_unique {s : Sys} (hi : NodeInv s) {p p' : Pid} {a a' : Bool} {n n
   exact hi.oneRunner p p' a a' n n' hp hp' this
 
 end Jade.Sys
+
+#realize_aux Jade
